@@ -1302,9 +1302,14 @@ def check_dh_group(ctx, g, rounds=1):
     with warnings.catch_warnings():
         warnings.simplefilter('ignore')
         for _ in range(rounds):
-            a, b = crypto.DiffieHellman.from_group(g), crypto.DiffieHellman.from_group(g)
-            a.compute_secret(b.public_key)
-            b.compute_secret(a.public_key)
+            try:
+                a, b = crypto.DiffieHellman.from_group(g), crypto.DiffieHellman.from_group(g)
+                a.compute_secret(b.public_key)
+                b.compute_secret(a.public_key)
+            except Exception as ex:
+                return [Failure('property', 'keys:dh-exchange-fails',
+                                f'group {g}: a Diffie-Hellman exchange between two DiffieHellman.from_group({g}) '
+                                f'objects raises {type(ex).__name__}: {ex}', {'kind': 'dh', 'group': g})]
             if g in RFC3526:
                 width = RFC3526[g][0] // 8
                 pubw, secw = width, width
